@@ -80,7 +80,7 @@ pub fn use_ladder(lower: bool) -> Vec<(Program, Vec<V>)> {
     let (p1, p2, pprog) = if lower { ("p1", "p2", "pprog") } else { ("P1", "P2", "PPROG") };
     let v = |n: &str| Expr::Var(n.to_string());
     let pv = |n: &str| Pat::Var(n.to_string());
-    let nwrap = 12;
+    let nwrap = 14;
     let wrap = |k: usize, e: Expr, ctr: &mut usize| -> Expr {
         *ctr += 1;
         let (l, m) = (format!("L{}", *ctr * 2), format!("L{}", *ctr * 2 + 1));
@@ -98,12 +98,30 @@ pub fn use_ladder(lower: bool) -> Vec<(Program, Vec<V>)> {
             // a condition choosing between two function values, applied to an environment holding the expression
             10 => Expr::Apply(Box::new(Expr::Prim(3, vec![v(p1), v("fun2"), v("fun2")])), Box::new(Expr::List(vec![e]))),
             // ... and between two programs passed in as a parameter (the third parameter holds the CLVM program 2)
-            _ => Expr::Apply(Box::new(Expr::Prim(3, vec![v(p1), v(pprog), v(pprog)])), Box::new(Expr::List(vec![e]))),
+            11 => Expr::Apply(Box::new(Expr::Prim(3, vec![v(p1), v(pprog), v(pprog)])), Box::new(Expr::List(vec![e]))),
+            // an inline function whose body hands its parameter to a function, and one whose body has an if on it
+            12 => Expr::Call("inl3".into(), vec![e], None),
+            _ => Expr::Call("inl4".into(), vec![e, v(p1)], None),
+        }
+    };
+    // binder around, construct inside: the bound name (not the expression) goes through the inner construct
+    let bind_around = |k: usize, e: Expr, inner: &dyn Fn(Expr) -> Expr, ctr: &mut usize| -> Expr {
+        *ctr += 1;
+        let (l, m) = (format!("S{}", *ctr * 2 + 100), format!("S{}", *ctr * 2 + 101));
+        match k {
+            0 => Expr::Let(false, vec![(l.clone(), e)], Box::new(inner(v(&l)))),
+            1 => Expr::Let(true, vec![(l.clone(), e), (m.clone(), v(&l))], Box::new(inner(v(&m)))),
+            2 => Expr::Assign(vec![(Pat::Cons(Box::new(pv(&l)), Box::new(pv(&m))), Expr::Prim(4, vec![e, Expr::Lit(V::int(1))]))], Box::new(inner(v(&l)))),
+            // (the lambdas capture the parameters the inner constructs may name)
+            3 => Expr::Let(false, vec![(l.clone(), e)], Box::new(Expr::Apply(Box::new(Expr::Lambda(vec![l.clone(), p1.to_string(), pprog.to_string()], Pat::list(vec![pv(&m)], Pat::Nil), Box::new(inner(v(&l))))), Box::new(Expr::List(vec![Expr::Lit(V::int(1))]))))),
+            _ => Expr::Apply(Box::new(Expr::Lambda(vec![p1.to_string(), pprog.to_string()], Pat::list(vec![pv(&m)], Pat::Nil), Box::new(inner(v(&m))))), Box::new(Expr::List(vec![e]))),
         }
     };
     let helpers = vec![
         Helper::Defun { name: "inl1".into(), pat: Pat::list(vec![pv("A")], Pat::Nil), body: v("A"), inline: true },
         Helper::Defun { name: "fun2".into(), pat: Pat::list(vec![pv("B")], Pat::Nil), body: v("B"), inline: false },
+        Helper::Defun { name: "inl3".into(), pat: Pat::list(vec![pv("C")], Pat::Nil), body: Expr::Call("fun2".into(), vec![v("C")], None), inline: true },
+        Helper::Defun { name: "inl4".into(), pat: Pat::list(vec![pv("D"), pv("E")], Pat::Nil), body: Expr::If(Box::new(v("E")), Box::new(v("D")), Box::new(Expr::Lit(V::int(0)))), inline: true },
     ];
     let args = Pat::list(vec![pv(p1), pv(p2), pv(pprog)], Pat::Nil);
     let two = V::int(2);
@@ -114,7 +132,18 @@ pub fn use_ladder(lower: bool) -> Vec<(Program, Vec<V>)> {
             let mut ctr = 0;
             let inner = wrap(a, v(p2), &mut ctr);
             let e = if b == nwrap { inner } else { wrap(b, inner, &mut ctr) };
-            let uses_helpers = [a, b].iter().any(|k| *k == 3 || *k == 4 || *k == 10);
+            let uses_helpers = [a, b].iter().any(|k| matches!(*k, 3 | 4 | 10 | 12 | 13));
+            out.push((Program { args: args.clone(), helpers: if uses_helpers { helpers.clone() } else { vec![] }, body: Expr::Prim(4, vec![v(p1), e]) }, envs.clone()));
+        }
+    }
+    for a in 0..5 {
+        for b in 0..nwrap {
+            let mut ctr = 0;
+            let mut ctr2 = 50;
+            let inner = |x: Expr| wrap(b, x, &mut ctr2.clone());
+            let e = bind_around(a, v(p2), &inner, &mut ctr);
+            ctr2 += 1;
+            let uses_helpers = matches!(b, 3 | 4 | 10 | 12 | 13);
             out.push((Program { args: args.clone(), helpers: if uses_helpers { helpers.clone() } else { vec![] }, body: Expr::Prim(4, vec![v(p1), e]) }, envs.clone()));
         }
     }
